@@ -9,6 +9,9 @@ STRUCTS = {
     "Wendland0": ("(1. - h) * (1. - h)", 2),
     "Wendland1": ("(1. - h) * (1. - h) * (1. - h) * (1. - h) * (1. + 4. * h)", 5),
     "Wendland2": ("(1. - h) * (1. - h) * (1. - h) * (1. - h) * (1. - h) * (1. - h) * (1. + 6. * h + 35. * h * h / 3.)", 8),
+    # pentamodel (Chiles & Delfiner; the library's own taper _tape_penta): valid up to 3-D
+    "Penta": ("1. - 22. / 3. * h * h + 33. * h * h * h * h - 38.5 * h * h * h * h * h + 16.5 * h * h * h * h * h * h * h"
+              " - 5.5 * h * h * h * h * h * h * h * h * h + 5. / 6. * h * h * h * h * h * h * h * h * h * h * h", 11),
 }
 
 
@@ -152,8 +155,58 @@ void vf_harness()
                 canaries=[{"fn": "CovAniso::createAnisotropicMulti", "rx": r"cov->setSill\(sills\);", "rp": ";", "expect": r"assertion"}])
 
 
+
+def unit_dimension_gate():
+    """a basic structure is offered only in the space dimensions where it is valid"""
+    CA = "src/Covariances/CovAniso.cpp"
+    pre = """
+#define nullptr 0
+int nondet_int(); bool nondet_bool();
+int g_thrown;
+#define my_throw(msg) do { g_thrown = 1; return; } while (0)
+struct CovContext { unsigned int ndim; unsigned int getNDim() const { return ndim; } };
+/* a basic structure: its own maximum space dimension (0 = no limit), as the overriding getMaxNDim() of the concrete class reports it */
+class ACovFunc { public: unsigned int maxndim; CovContext _ctxt; unsigned int getMaxNDim() const { return maxndim; } bool isConsistent() const; };
+struct String {}; struct ECov { int v; };
+ACovFunc g_func;
+struct CovFactory { static ACovFunc* createCovFunc(const ECov& type, const CovContext& ctxt) { g_func._ctxt = ctxt; return &g_func; }
+                    static ECov identifyCovariance(const String&, const CovContext&) { ECov e; e.v = nondet_int(); return e; } };
+ACovFunc* _cova; int g_init_calls;
+static void _initFromContext() { g_init_calls++; }
+struct SillStub { void setValue(int, int, double) {} void fill(double) {} }; SillStub _sill;
+static void setParam(double) {} static void setRangeIsotropic(double) {} static void setScale(double) {}
+"""
+    f0 = Fn("ACovFunc::isConsistent", "src/Covariances/ACovFunc.cpp", r"^bool ACovFunc::isConsistent\(\) const\s*$")
+    # the three constructors of CovAniso: only their bodies are taken (member initialisers bound by the prelude)
+    c1 = Fn("CovAniso::CovAniso(type, ctxt)", CA, r"^CovAniso::CovAniso\(const ECov &type, const CovContext &ctxt\)\s*\n(?:\s+[:,_].*\n)*?\s+_optimEnabled\(true\)\s*$",
+            csig="void CovAniso_ctor1(const ECov& type, const CovContext& ctxt)")
+    c2 = Fn("CovAniso::CovAniso(symbol, ctxt)", CA, r"^CovAniso::CovAniso\(const String &symbol, const CovContext &ctxt\)\s*\n(?:\s+[:,_].*\n)*?\s+_optimEnabled\(true\)\s*$",
+            csig="void CovAniso_ctor2(const String& symbol, const CovContext& ctxt)")
+    h = """
+void vf_harness()
+{
+  CovContext ctxt; ctxt.ndim = nondet_int(); __CPROVER_assume(1 <= ctxt.ndim && ctxt.ndim <= 10);
+  g_func.maxndim = nondet_int(); __CPROVER_assume(g_func.maxndim <= 5);
+  g_thrown = 0; g_init_calls = 0;
+  ECov type; type.v = nondet_int(); String sym;
+  if (nondet_bool()) { _cova = CovFactory::createCovFunc(type, ctxt); CovAniso_ctor1(type, ctxt); }      /* member initialiser: _cova(CovFactory::createCovFunc(type, ctxt)) */
+  else { _cova = 0; CovAniso_ctor2(sym, ctxt); }
+  bool valid = !(g_func.maxndim > 0 && g_func.maxndim < ctxt.ndim);
+  __CPROVER_assert(valid || g_thrown, "a structure whose maximum space dimension is below the dimension of the context is refused at construction");
+  __CPROVER_assert(!valid || (!g_thrown && g_init_calls == 1), "a valid structure is constructed");
+  VF_REACH();
+}
+"""
+    return Unit("C03.dimension_gate", [f0, c1, c2], mode="cpp", prelude=pre, harness=h, unwind=2, checks=[], backends=("minisat", "cadical"), timeout=300,
+                claim=("CovAniso(type, ctxt) / CovAniso(symbol, ctxt): a basic structure whose getMaxNDim() (as overridden by the concrete class) is below the space "
+                       "dimension of the context is refused at construction; ACovFunc::isConsistent is the real text"),
+                assumptions=["Route X; constructor BODIES only (member initialisers are bound by the prelude: _cova is the object the factory returned)",
+                             "the third constructor (type, range, param, sill, ctxt) carries the same test (must-fire lexical rule below)"],
+                canaries=[{"fn": "ACovFunc::isConsistent", "rx": r"maxndim < _ctxt\.getNDim\(\)", "rp": "maxndim + 1 < _ctxt.getNDim()", "expect": r"assertion"}])
+
+
 def units(tier):
-    return [unit_factories()] + [unit_struct(n) for n in STRUCTS] + [unit_closed(n) for n in CLOSED]
+    return [unit_factories(), unit_dimension_gate()] + [unit_struct(n) for n in STRUCTS] + [unit_closed(n) for n in CLOSED]
 
 
 META = {
@@ -163,11 +216,11 @@ META = {
     "trusted_base": ["CBMC 6.11 floating-point arithmetic"],
     "assumptions": [],
     "not_covered": ["positive (semi-)definiteness of covariance matrices", "|C(h)| <= C(0)", "anisotropy / rotation of the distance", "variogram mode", "Matern / Bessel / Power / Linear / spline structures (special functions, field-dependent constants)", "the practical-range constants (getScadef)",
-                    "validity dimensions (getMaxNDim)", "CovPenta (support 2, negative values: no published reference at hand)"],
+                    "validity dimensions (getMaxNDim)", "practical-range constants"],
 }
 MANIFEST = {
     "category": "other",
-    "text": "Partial: compact support, C(0)=1 and agreement with the published polynomial for Spherical, Cubic, Triangle, Wendland0/1/2; equality with the published closed form (libm functions uninterpreted) for Exponential, Gaussian, Stable, Cauchy, Gamma, Sincard, Cosinus, Storkey.",
+    "text": "Partial: compact support, C(0)=1 and agreement with the published polynomial for Spherical, Cubic, Triangle, Wendland0/1/2, Penta; equality with the published closed form (libm functions uninterpreted) for Exponential, Gaussian, Stable, Cauchy, Gamma, Sincard, Cosinus, Storkey.",
     "note": "Positive-definiteness N/A for this technique.",
     "design_ref": "DESIGN.md 3 C03",
 }
